@@ -118,13 +118,16 @@ def gen_clump(rng, tier):
     for t in range(n):
         nv = rng.randint(1, 8)
         ns = rng.randint(2, 8)
+        medium = rng.random() < 0.05
+        if medium:
+            nv, ns = rng.randint(17, 30), rng.randint(17, 40)
         chroms = rng.sample(["1", "2", "X"], rng.randint(1, 2))
         variants = []
         used = set()
         dup_ids = rng.random() < 0.35  # several variants share an ID ('.' placeholders, SNP/indel pairs with one rsID)
         for j in range(nv):
             while True:
-                c, pos = rng.choice(chroms), rng.choice([100, 600, 1100, 1500, 2000, 32399, 100000, 251000, 500000])
+                c, pos = rng.choice(chroms), (rng.choice([100, 600, 1100, 1500, 2000, 32399, 100000, 251000, 500000]) if not medium else 100 * rng.randint(1, 3000))
                 if (c, pos) not in used:
                     used.add((c, pos))
                     break
